@@ -175,6 +175,9 @@ def run(tier, seed):
             if got_k == "-" and mv != "REJ":
                 accepted_cases.append((s, tn, code, a))
         fl.stream("accept: x : T = <spelling> through the front end, diagnostics vs extracted model", len(cases), diffs, first)
+        v.add_samples([{"source": srcs[i], "implementation_diagnostics": impl[i], "model_literal": lit[cases[i][0]][0],
+                        "spec_literal": lit[cases[i][0]][1]} for i in (0, len(cases) // 3, len(cases) // 2, len(cases) - 1)
+                       if i < len(cases)])
         v.coverage["accept_diag_histogram"] = hist
 
         # ---- globals (tested only; rule: a global's literal defaults to i32 unless above u32::MAX -> u64)
